@@ -202,7 +202,14 @@ def run(report, p):
             po = pr.origins(kids["path"].text[0], f)
             okp = all(is_call(o, "convert_local_path_to_posix") and o[2] and is_call(o[2][0], "os.path.relpath") and len(o[2][0][2]) == 2 and o[2][0][2][0][0] == "attr" and o[2][0][2][0][2] == "file_path" and is_call(o[2][0][2][1], "os.path.dirname") for o in po)
             co = norm(kids["c4"].text[0])
-            okp = okp and co.endswith(".generate_reference_hash()") and co.split(".")[0] == norm(kids["path"].text[0]).split("relpath(")[1].split(".")[0]
+            recv_ = co.split(".")[0]
+            ptxt_ = norm(kids["path"].text[0])
+            if "relpath(" in ptxt_:
+                same_obj = recv_ == ptxt_.split("relpath(")[1].split(".")[0]
+            else:
+                # the relative path sits in a local: compare through provenance (the object whose file_path is made relative is the receiver of the hash call)
+                same_obj = bool(po) and all(o[2][0][2][0][1][0] == "param" and o[2][0][2][0][1][2] == recv_ for o in po) if okp else False
+            okp = okp and co.endswith(".generate_reference_hash()") and same_obj
         r5.check(okp, e.func, e.node, "a reference is not (relative POSIX path of the child manifest from the referencing history's root, reference hash of that same manifest)", construct="reference element fields")
     grh = p.funcs.get("ascmhl.hashlist.MHLHashList.generate_reference_hash")
     rets = [n for n in walk_no_nested(grh.node) if isinstance(n, ast.Return)] if grh else []
